@@ -299,6 +299,9 @@ class CFGBuilder(AstVisitor[BB | None]):
 
         func_ty = check_signature(node, self.globals)
         returns_none = isinstance(func_ty.output, NoneType)
+        if not node.body and not returns_none:
+            # The body consisted of a docstring only
+            raise GuppyError(ExpectedError(node, "return statement"))
         # No UnitaryFlags are assigned to nested functions
         cfg = CFGBuilder().build(node.body, returns_none, self.globals)
 
